@@ -3,25 +3,25 @@ UNIT = {
     'property': 'C07',
     'crate': 'yash-quote',
     'cfg': [],
-    'inject': [('yash-quote/src/lib.rs', 'quote_harness.rs')],
+    'inject': [('yash-quote/src/lib.rs', 'quote_harness.rs'), ('yash-quote/src/lib.rs', 'forms_harness.rs')],
     'anchors': [
         ('yash-quote/src/lib.rs', r'fn char_needs_quoting\(c: char\) -> bool'),
         ('yash-quote/src/lib.rs', r'fn str_needs_quoting\(s: &str\) -> bool'),
     ],
     'functions': [
         {'file': 'yash-quote/src/lib.rs', 'item': 'char_needs_quoting (every char)'},
-        {'file': 'yash-quote/src/lib.rs', 'item': 'str_needs_quoting (the empty text and the nine one-character texts over # ~ : { } [ ] a space)'},
+        {'file': 'yash-quote/src/lib.rs', 'item': 'quoted() + Display for Quoted + str_needs_quoting: every text of <= 2 characters over 16 characters and ten 3-character texts, output compared with the literal expected form (123 texts quick, 283 thorough)'},
     ],
-    'harnesses': {'quick': ['c07q_', 'c07x_'], 'thorough': []},
-    'min_harnesses': {'quick': 3, 'thorough': 3},
+    'harnesses': {'quick': ['c07q_', 'c07x_'], 'thorough': ['c07t_']},
+    'min_harnesses': {'quick': 10, 'thorough': 18},
     'control_re': r'^c07x_',
     'complete_re': r'^c07q_char_needs_quoting',
-    'bound': 'char_needs_quoting: complete over every char; str_needs_quoting: the empty text and one-character texts only (longer texts need the two-way string search of std, out of reach for CBMC: measured)',
+    'bound': 'char_needs_quoting: complete over every char; quoted form: every text of <= 2 characters over a # ~ : { } [ ] \' " ` $ \\ <space> = * and ten texts of 3 characters (first 113 + 10 quick, all thorough), concrete enumeration with literal expectations',
     'jobs': {'quick': 4, 'thorough': 6},
     'harness_timeout': '1200s',
     'timeout_s': {'quick': 1500, 'thorough': 3000},
     'assumptions': [
         'the always-quote set in contracts/k/quote/quote_harness.rs is my reading of XCU 2.2 plus yash\'s Unicode blanks',
-        'Display for Quoted (the quoting itself: single quotes, or double quotes with four escapes) is NOT under contract: the formatting machinery is outside both verifiers\' reach here',
+        'the expected quoted forms and the reference un-quoter that validates them are in tools/gen_quote.py (my reading of XCU 2.2); the real lexer is not run on the output',
     ],
 }
